@@ -79,6 +79,8 @@ fn case<S: Shape>(r: &mut Rng, acc: &mut Acc, index: u64) {
     let mut comps = comps;
     let with_start = r.chance(1, 2);
     let sv: Vec<f64> = S::KINDS.iter().map(|k| gen_value(r, *k)).collect();
+    // (a clone taken before start_with stays alive: the substitution must still reach every component of `merged`)
+    let _kept_alive = if r.chance(1, 2) { Some(merged.clone()) } else { None };
     if with_start {
         let v = S::from_vals(&sv);
         merged.start_with(&v);
